@@ -47,7 +47,12 @@ def value_written(f, e):
 def ordered(f, evs):
     """events sorted in CFG (dominance) order: earlier first."""
     out = list(evs)
-    out.sort(key=lambda e: (-e['_b'], e['_i']))
+    # by reachability, not by block numbers (inlined code gets fresh, larger numbers): an event comes after every event of
+    # the list that can run before it and cannot run after it
+    def before(a, b):
+        return f.ev_reaches(a, b) and not f.ev_reaches(b, a)
+    allev = list(out)
+    out.sort(key=lambda e: (sum(1 for x in allev if x is not e and before(x, e)), -e['_b'], e['_i']))
     return out
 
 
@@ -611,6 +616,30 @@ def rule_tb1(ctx, RID):
                                         guard = False
                                     else:
                                         covered |= kinds
+                    # the validation computed as a value (`valid = id >= 0 && id < n && nodes_[id] != NULL`): the failure of one
+                    # conjunct is not an edge of its own; it is replayed from the assignment with that conjunct false
+                    for x in load.stores():
+                        r0 = strip(x.get('r'))
+                        if not (isinstance(r0, dict) and r0.get('k') == 'bin' and r0.get('op') == '&&'):
+                            continue
+                        parts, st = [], [r0]
+                        while st:
+                            y = strip(st.pop())
+                            if isinstance(y, dict) and y.get('k') == 'bin' and y.get('op') == '&&':
+                                st += [y['l'], y['r']]
+                            else:
+                                parts.append(norm_cond(prog, y))
+                        for j, (pa, pp) in enumerate(parts):
+                            kd = kind_of(pa, not pp)
+                            if kd is None:
+                                continue
+                            init = {(dstr(pa), not pp)} | {(dstr(qa), qp) for m, (qa, qp) in enumerate(parts) if m != j}
+                            # the store itself is evaluated by the path search (it sees the conjunct false)
+                            prev = {'_b': x['_b'], '_i': x['_i'] - 1}
+                            if load.find_path(prev, lambda z: z is e, init_facts=frozenset(init)) is not None:
+                                guard = False
+                            else:
+                                covered.add(kd)
                     guard = guard and covered == {'negative', 'too-large', 'no-node'}
                 nfail = sorted(covered)
                 if os.environ.get('NV_DEBUG'):
